@@ -125,6 +125,12 @@ Theorem C10_slave_hash_tracks :
 Proof. exact slave_hash_tracks. Qed.
 Print Assumptions C10_slave_hash_tracks.
 
+Theorem C10_slave_hash_rename_invariant :
+  forall sha256hex pw0 a b,
+    hub_slave_hash sha256hex pw0 (a ++ SRename :: b) = hub_slave_hash sha256hex pw0 (a ++ b).
+Proof. exact slave_hash_rename_invariant. Qed.
+Print Assumptions C10_slave_hash_rename_invariant.
+
 (* ... so a header the hub issues for the slave with that hash is accepted by the slave (same rules, admin level), and the
    slave-events endpoint, which verifies with that hash, accepts exactly tokens signed with the slave's current hash
    (C10_parse_sound with hash_func = fun _ => Some (hub_slave_hash ...)) *)
